@@ -106,11 +106,17 @@ def coordsEq (p x1 y1 z1 x2 y2 z2 : Int) : Bool :=
   let zz2 := pmod (z2 * z2) p
   pmod (x1 * zz2 - x2 * zz1) p == 0 && pmod (y1 * zz2 * z2 - y2 * zz1 * z1) p == 0
 
+/-- the body of `PointJacobi.__eq__` after the curve comparison (fix F13): a point with Y = 0 or Z = 0 represents the
+point at infinity and equals exactly the other such points; otherwise the cross-multiplied comparison -/
+def eqCoords (p x1 y1 z1 x2 y2 z2 : Int) : Bool :=
+  if y1 == 0 || z1 == 0 || y2 == 0 || z2 == 0 then (y1 == 0 || z1 == 0) && (y2 == 0 || z2 == 0)
+  else coordsEq p x1 y1 z1 x2 y2 z2
+
 /-- `PointJacobi.__eq__` -/
 def pjEq (P : PJ) : Pt → Bool
   | .infinity => pjEqInf P
-  | .aff Q => if !(P.curve.eqv Q.curve) then false else coordsEq P.curve.p P.x P.y P.z Q.x Q.y 1
-  | .jac Q => if !(P.curve.eqv Q.curve) then false else coordsEq P.curve.p P.x P.y P.z Q.x Q.y Q.z
+  | .aff Q => if !(P.curve.eqv Q.curve) then false else eqCoords P.curve.p P.x P.y P.z Q.x Q.y 1
+  | .jac Q => if !(P.curve.eqv Q.curve) then false else eqCoords P.curve.p P.x P.y P.z Q.x Q.y Q.z
 
 /-- `Point.__eq__` (with Python's reflected fallback when the other operand is a `PointJacobi`) -/
 def affEq (P : AffPt) : Pt → Bool
